@@ -46,20 +46,80 @@ deriving DecidableEq, Repr
 def chanInit (k : Nat) : ChanState :=
   { taken := List.replicate k false, got := List.replicate k [] }
 
+/-- what a consumer's take does: append the value to its stream, mark it taken; the last taker
+    empties the place -/
+def afterTake (s : ChanState) (c : Nat) (v : Nat) (g : List Nat) : ChanState :=
+  if (s.taken.set c true).all id then
+    { s with full := none, taken := (s.taken.set c true).map (fun _ => false), got := s.got.set c (g ++ [v]) }
+  else { s with taken := s.taken.set c true, got := s.got.set c (g ++ [v]) }
+
+def prodStep (f : Nat → Nat) (s : ChanState) : Option ChanState :=
+  match s.full with
+  | none => some { s with sent := s.sent + 1, full := some (f s.sent) }
+  | some _ => none
+
+def consStep (c : Nat) (s : ChanState) : Option ChanState :=
+  match s.full, s.taken[c]?, s.got[c]? with
+  | some v, some false, some g => some (afterTake s c v g)
+  | _, _, _ => none
+
 def chanStep (f : Nat → Nat) : Agent → ChanState → Option ChanState
-  | .producer, s =>
-    match s.full with
-    | none => some { s with sent := s.sent + 1, full := some (f s.sent) }
-    | some _ => none
-  | .consumer c, s =>
-    match s.full, s.taken[c]?, s.got[c]? with
-    | some v, some false, some g =>
-      let taken := s.taken.set c true
-      let got := s.got.set c (g ++ [v])
-      if taken.all id then some { s with full := none, taken := taken.map (fun _ => false), got := got }
-      else some { s with taken := taken, got := got }
-    | _, _, _ => none
+  | .producer, s => prodStep f s
+  | .consumer c, s => consStep c s
 
 def chanSys (f : Nat → Nat) : Sys Agent ChanState := ⟨chanStep f⟩
+
+/-! ### networks of agents over one-place channels with fan-out
+
+  The reference ("blocking-IO") semantics of a machine.  A channel has a writer and reader *slots*;
+  `sent ch` counts the values written, `cnt s` the values slot `s` has taken.  A write is enabled
+  when every slot of the channel has taken everything written so far (the place is empty — the
+  conjunction of the `received` lines) and there is at least one slot (nobody listening: the
+  write blocks for ever, as in both worlds); slot `s` may read when it is behind (`cnt s < sent ch`: the
+  place holds a value it has not taken).  Each agent is a deterministic sequential process: its
+  next action is a function of its local state. -/
+
+def upd {α β : Type} [DecidableEq α] (f : α → β) (a : α) (b : β) : α → β := fun x => if x = a then b else f x
+
+inductive Act (L : Type) where
+  | internal (l : L)
+  | read (slot ch : Nat) (k : Nat → L)
+  | write (ch v : Nat) (l : L)
+  | blocked
+
+structure NState (ι L : Type) where
+  loc : ι → L
+  sent : Nat → Nat
+  val : Nat → Nat
+  cnt : Nat → Nat
+  got : Nat → List Nat
+
+structure ChanNet (ι L : Type) where
+  act : ι → L → Act L
+  slotsOf : Nat → List Nat
+  slotOwner : Nat → ι
+  chanOwner : Nat → ι
+
+def ChanNet.step {ι L : Type} [DecidableEq ι] (N : ChanNet ι L) (i : ι) (σ : NState ι L) : Option (NState ι L) :=
+  match N.act i (σ.loc i) with
+  | .internal l => some { σ with loc := upd σ.loc i l }
+  | .blocked => none
+  | .write ch v l =>
+    if !(N.slotsOf ch).isEmpty && (N.slotsOf ch).all (fun s => σ.cnt s == σ.sent ch) then
+      some { σ with loc := upd σ.loc i l, sent := upd σ.sent ch (σ.sent ch + 1), val := upd σ.val ch v }
+    else none
+  | .read s ch k =>
+    if σ.cnt s < σ.sent ch then
+      some { σ with loc := upd σ.loc i (k (σ.val ch)), cnt := upd σ.cnt s (σ.cnt s + 1),
+                    got := upd σ.got s (σ.got s ++ [σ.val ch]) }
+    else none
+
+def ChanNet.sys {ι L : Type} [DecidableEq ι] (N : ChanNet ι L) : Sys ι (NState ι L) := ⟨N.step⟩
+
+/-- every slot is read by one agent, every channel written by one agent, a slot belongs to one channel -/
+structure ChanNet.Owned {ι L : Type} (N : ChanNet ι L) : Prop where
+  read_own : ∀ i l s ch k, N.act i l = .read s ch k → N.slotOwner s = i ∧ s ∈ N.slotsOf ch
+  write_own : ∀ i l ch v l', N.act i l = .write ch v l' → N.chanOwner ch = i
+  slot_chan : ∀ s ch ch', s ∈ N.slotsOf ch → s ∈ N.slotsOf ch' → ch = ch'
 
 end BMV.Kpn
